@@ -6,6 +6,7 @@ import (
 	"go/token"
 	"go/types"
 	"regexp"
+	"sort"
 	"strings"
 
 	"golang.org/x/tools/go/packages"
@@ -93,6 +94,10 @@ func checkC08(c *Ctx) {
 	checkEmbeddedOrder(c, "C08.R1.routed-document", ev, gen)
 
 	checkRouteClash(c, "C08.R1.route-clash", gen)
+	c.Rule("C08.R2.tag-selection", "whether --tags selects an operation is decided from the filter and its intersection with the operation's tags alone", 1)
+	checkTagSelection(c, "C08.R2.tag-selection", gen)
+	c.Rule("C08.R4.alias-rename", "when the import alias of an operation package is found taken, the alias that was looked up is the name that is renamed", 1)
+	checkAliasRename(c, "C08.R4.alias-rename", gen)
 	checkLoopTotality(c, "C08.R6.loop-totality", gen, "generator", 20, generatorLoopExits)
 	checkArgumentRoles(c, "C08.R7.argument-roles", gen, "generator", 10)
 	checkGenOptsNotCopied(c, "C08.R4.options-shared", gen)
@@ -853,4 +858,125 @@ func loopExitConds(info *types.Info, rs *ast.RangeStmt) []loopExit {
 	}
 	walk(rs.Body.List, nil, nil)
 	return out
+}
+
+// checkTagSelection: whether `--tags` selects an operation is a matter of its tags and the
+// filter alone: the answer of analyzeTags reads `filter` and the intersection, nothing that is
+// only filled in some modes (the package tag is empty with --skip-tag-packages).
+func checkTagSelection(c *Ctx, rule string, gen *packages.Package) {
+	fd := load.FuncDecl(gen, "codeGenOpBuilder.analyzeTags")
+	if fd == nil {
+		c.Anchor(rule, "generator.codeGenOpBuilder.analyzeTags", "not found")
+		return
+	}
+	info := gen.TypesInfo
+	n := 0
+	ast.Inspect(fd.Body, func(m ast.Node) bool {
+		rs, ok := m.(*ast.ReturnStmt)
+		if !ok || len(rs.Results) != 3 {
+			return true
+		}
+		n++
+		var names []string
+		seen := map[string]bool{}
+		ast.Inspect(rs.Results[2], func(k ast.Node) bool {
+			if id, ok := k.(*ast.Ident); ok {
+				if v, isVar := info.Uses[id].(*types.Var); isVar && !seen[v.Name()] {
+					// rendered by what the variable holds, not by its name
+					what := "?"
+					for _, a := range goan.AssignmentsTo(info, fd.Body, v) {
+						if a.Rhs == nil {
+							continue
+						}
+						txt := goan.ExprString(a.Rhs)
+						switch {
+						case strings.Contains(txt, "intersectTags("):
+							what = "intersection"
+						case strings.HasSuffix(txt, ".Tags") && strings.Contains(txt, "GenOpts"):
+							what = "filter"
+						}
+					}
+					seen[v.Name()] = true
+					names = append(names, what)
+				}
+			}
+			return true
+		})
+		sort.Strings(names)
+		got := strings.Join(names, ",")
+		c.Check(got == "filter,intersection", rule, "generator.codeGenOpBuilder.analyzeTags › selected by --tags", c.posOf(gen, rs.Pos()), "decided from the filter and its intersection with the operation's tags",
+			fmt.Sprintf("the answer reads [%s]: a value that is not the filter or the intersection (the package tag, empty under --skip-tag-packages or an empty x-go-operation-tag) decides whether the operation is planned — with --tags every selected operation can be dropped, and generation still exits 0", got))
+		return true
+	})
+	if n == 0 {
+		c.Anchor(rule, "generator.codeGenOpBuilder.analyzeTags › return", "no three-valued return")
+	}
+}
+
+// checkAliasRename: when the import alias of an operation package is found taken, the name that
+// is renamed is that alias — the one that was looked up — and the renamed alias is what gets
+// registered. Renaming the package name instead gives an alias of another family, which may be
+// the very alias another package holds: two packages are merged into one group.
+func checkAliasRename(c *Ctx, rule string, gen *packages.Package) {
+	fd := load.FuncDecl(gen, "appGenerator.makeCodegenApp")
+	if fd == nil {
+		c.Anchor(rule, "generator.appGenerator.makeCodegenApp", "not found")
+		return
+	}
+	info := gen.TypesInfo
+	n := 0
+	ast.Inspect(fd.Body, func(m ast.Node) bool {
+		as, ok := m.(*ast.AssignStmt)
+		if !ok || len(as.Lhs) != 2 || len(as.Rhs) != 1 {
+			return true
+		}
+		ix, ok := ast.Unparen(as.Rhs[0]).(*ast.IndexExpr)
+		if !ok {
+			return true
+		}
+		if _, isMap := info.TypeOf(ix.X).Underlying().(*types.Map); !isMap {
+			return true
+		}
+		key := goan.ExprString(ix.Index)
+		okv, _ := as.Lhs[1].(*ast.Ident)
+		if okv == nil {
+			return true
+		}
+		okObj := info.ObjectOf(okv)
+		// the branch taken when the alias is in use
+		ast.Inspect(fd.Body, func(k ast.Node) bool {
+			ifs, ok := k.(*ast.IfStmt)
+			if !ok || ifs.Pos() < as.Pos() {
+				return true
+			}
+			uses := false
+			ast.Inspect(ifs.Cond, func(u ast.Node) bool {
+				if id, ok := u.(*ast.Ident); ok && info.Uses[id] == okObj {
+					uses = true
+				}
+				return true
+			})
+			if !uses {
+				return true
+			}
+			ast.Inspect(ifs.Body, func(u ast.Node) bool {
+				call, ok := u.(*ast.CallExpr)
+				if !ok {
+					return true
+				}
+				if fn := goan.Callee(info, call); fn == nil || fn.Name() != "renameOperationPackage" || len(call.Args) != 2 {
+					return true
+				}
+				n++
+				c.Check(goan.ExprString(call.Args[1]) == key, rule, "generator.appGenerator.makeCodegenApp › the alias found taken is the one renamed", c.posOf(gen, call.Pos()), "renameOperationPackage(…, "+key+")",
+					fmt.Sprintf("the alias looked up is `%s` but the name renamed is `%s`: for a package whose alias already differs from its name (api → apiops) the new alias is made from the name and may be one another package holds — both packages end up in one group, one client package is never written and the generated code does not build, with exit status 0", key, goan.ExprString(call.Args[1])))
+				return true
+			})
+			return true
+		})
+		return true
+	})
+	if n == 0 {
+		c.Anchor(rule, "generator.appGenerator.makeCodegenApp › renameOperationPackage under an alias lookup", "not found")
+	}
 }
